@@ -289,6 +289,16 @@ def run_checkpoints(script, res, trace):
                             'a rule-abiding block at non-checkpointed height %d was rejected: the sweep cannot attribute '
                             'rejections at checkpointed heights to the checkpoint' % claimed)
                 return
+        # no alternative history can PASS a checkpoint either: a block on the parent at h-1 that claims h+1
+        cs, T = base_at(h - 1)
+        skip = block_at(h + 1, T.hash(), W.BASE_TS + 5, 3 + v, b'skip')
+        try:
+            cs.add_block(skip, now)
+            res.violate(PROP, 'C18/checkpoint-skipped', 'a block on a parent at height %d claiming height %d (skipping the checkpointed '
+                        'height %d) was accepted' % (h - 1, h + 1, h))
+            return
+        except Exception:
+            pass
         res.bump('checkpoint_heights_swept')
     # the accepting branch: real genesis, altered genesis, synthetic table entry
     e = CoinState.empty()
@@ -355,6 +365,18 @@ def run_checkpoints(script, res, trace):
             blk = block_at(h, T.hash(), W.BASE_TS + 5, 5, b'relayed')
             c.send(M.DataMessage(M.DATA_BLOCK, blk))
             k.run(k.now + 3000)
+            # ... and one that claims h+1 on the same parent, jumping over the checkpointed height
+            skip = block_at(h + 1, T.hash(), W.BASE_TS + 6, 6, b'skips')
+            live = [x for x in bot.conns if not x.closed and x.hello_in]
+            if not live:
+                live = [bot.connect(('10.0.0.1', 2412))]
+                k.run(k.now + 2500)
+            live[-1].send(M.DataMessage(M.DATA_BLOCK, skip))
+            k.run(k.now + 3000)
+            if skip.hash() in node.lp.chain_manager.coinstate.block_by_hash:
+                res.violate(PROP, 'C18/checkpoint-skipped', 'a relayed block on a parent at height %d claiming height %d entered chain state: '
+                            'the checkpoint at %d was jumped over' % (h - 1, h + 1, h))
+                return
             res.bump('checkpoint_relays')
             if node.loop_error:
                 res.violate(PROP, 'C18/exception-left-event-loop', '%s: %s' % node.loop_error[:2])
